@@ -306,7 +306,17 @@ fn selzero(ctx: &mut Ctx) {
         }
         let tail = if rng.chance(1, 2) { rng.below(1000) } else { 0 };
         if tail > 0 { run_starts.push(p); }
-        let n = p + tail;
+        let mut n = p + tail;
+        // Every third case sits at the very top of a universe next to 2^64 (behind one enormous zero run): the
+        // values then fall into the topmost buckets, where bucket limits computed by shifting wrap around.
+        if c % 3 == 2 {
+            let top: usize = match (c / 3) % 5 { 0 => usize::MAX, 1 => usize::MAX - 1, 2 => usize::MAX - rng.below(1 << 16), 3 => (1usize << 63) + rng.below(1 << 30), _ => usize::MAX - (1usize << (8 + rng.below(40))) };
+            let shift = top - n;
+            for x in pos.iter_mut() { *x += shift; }
+            for x in run_starts.iter_mut() { *x += shift; }
+            run_starts.insert(0, 0);
+            n = top;
+        }
         let m = SetModel::new(n, pos);
         let w = predict_width(n, m.ones.len());
         // Ranks at every zero-run boundary -1/0/+1.
